@@ -420,12 +420,18 @@ def setFnArgsLayout (c : Config) : Config :=
     else c
   else c
 
-/-- config_type.rs:555-565 `set_hide_parse_errors`.  Literal: the value of `hide_parse_errors` is
-copied into `show_parse_errors` WITHOUT negation (line 562). -/
+/-- `!b` on a boolean value (anything else, unreachable for well-formed configs, is kept). -/
+def negBool : Val → Val
+  | .bool b => .bool (!b)
+  | v => v
+
+/-- config_type.rs:555-565 `set_hide_parse_errors`: `show_parse_errors = !hide_parse_errors`
+(since `fix: hide_parse_errors = true must turn show_parse_errors off`; the pinned tree copied the
+value without negating it). -/
 def setHideParseErrors (c : Config) : Config :=
   if wasSet c "hide_parse_errors" then
     if !wasSet c "show_parse_errors" then
-      setVal c "show_parse_errors" (getE c "hide_parse_errors").val
+      setVal c "show_parse_errors" (negBool (getE c "hide_parse_errors").val)
     else c
   else c
 
